@@ -6,7 +6,7 @@ from vlib import coq_list, coq_bool
 
 MANIFEST = {
     "text": "Coq theorems over a row-level model of the AT executors (update/delete/insert): C18_exact, C18_exact_delete, "
-            "C18_exact_insert (for ALL tables, matched key lists, SET functions, tracked column sets: before image = matched rows "
+            "C18_exact_insert, C18_exact_upsert / C18_upsert_pk_reject (INSERT .. ON DUPLICATE KEY UPDATE) (for ALL tables, matched key lists, SET functions, tracked column sets: before image = matched rows "
             "as of before, after image = the same keys as of after, unmatched rows unchanged and absent), C18_pk_reject (a key-changing "
             "UPDATE is refused, by a row-by-row unique-check argument), C18_insert_pk / C18_insert_arg_index (recovered keys = inserted "
             "keys; the argument index arithmetic of multi-row VALUES), C18_args (structural induction over syntax trees: selected "
@@ -274,7 +274,8 @@ def run(chk, only=None):
         "evaluations": len(irecs) + len(arecs),
         "distinct_nontrivial": vlib.distinct([r["icase"] for _, _, r in nontriv if r["icase"]]),
         "rule": "%d scenarios (clean + malformed + finding streams) of 1-4 autocommit DML statements inside a global transaction over 4 schemas "
-                "(auto-increment, string key, composite key, plain integer key), both settings of only-care-update-columns; "
+                "(auto-increment, string key, composite key, plain integer key, composite key declared out of column order, auto-increment key ID + secondary "
+                "unique index for upserts; mixed-case column names), both settings of only-care-update-columns; "
                 "WHERE from comparison/AND/OR/NOT/IN/BETWEEN/IS NULL/LIKE/parentheses/unary minus, ORDER BY + LIMIT, parameters or literals "
                 "anywhere; multi-row VALUES mixing literals, parameters, NULL, DEFAULT; key-changing updates, duplicate keys, unknown columns, "
                 "surplus arguments in the malformed stream; non-trivial = at least one row matched/inserted; distinct by the model case term"
